@@ -18,17 +18,17 @@ import (
 // EventBlobFields are the DataBlob fields documented as serialized history events (a marshalled
 // temporal.api.history.v1.History).
 var EventBlobFields = map[protoreflect.FullName]bool{
-	"temporal.api.workflowservice.v1.GetWorkflowExecutionHistoryResponse.raw_history":                true,
-	"temporal.server.api.adminservice.v1.GetWorkflowExecutionRawHistoryResponse.history_batches":    true,
-	"temporal.server.api.adminservice.v1.GetWorkflowExecutionRawHistoryV2Response.history_batches":  true,
-	"temporal.server.api.adminservice.v1.ImportWorkflowExecutionRequest.history_batches":            true,
-	"temporal.server.api.adminservice.v1.ReapplyEventsRequest.events":                               true,
-	"temporal.server.api.replication.v1.HistoryTaskAttributes.events":                               true,
-	"temporal.server.api.replication.v1.HistoryTaskAttributes.new_run_events":                       true,
-	"temporal.server.api.replication.v1.HistoryTaskAttributes.events_batches":                       true,
-	"temporal.server.api.replication.v1.NewRunInfo.event_batch":                                     true,
-	"temporal.server.api.replication.v1.BackfillHistoryTaskAttributes.event_batches":                true,
-	"temporal.server.api.replication.v1.VersionedTransitionArtifact.event_batches":                  true,
+	"temporal.api.workflowservice.v1.GetWorkflowExecutionHistoryResponse.raw_history":              true,
+	"temporal.server.api.adminservice.v1.GetWorkflowExecutionRawHistoryResponse.history_batches":   true,
+	"temporal.server.api.adminservice.v1.GetWorkflowExecutionRawHistoryV2Response.history_batches": true,
+	"temporal.server.api.adminservice.v1.ImportWorkflowExecutionRequest.history_batches":           true,
+	"temporal.server.api.adminservice.v1.ReapplyEventsRequest.events":                              true,
+	"temporal.server.api.replication.v1.HistoryTaskAttributes.events":                              true,
+	"temporal.server.api.replication.v1.HistoryTaskAttributes.new_run_events":                      true,
+	"temporal.server.api.replication.v1.HistoryTaskAttributes.events_batches":                      true,
+	"temporal.server.api.replication.v1.NewRunInfo.event_batch":                                    true,
+	"temporal.server.api.replication.v1.BackfillHistoryTaskAttributes.event_batches":               true,
+	"temporal.server.api.replication.v1.VersionedTransitionArtifact.event_batches":                 true,
 }
 
 const historyFullName = protoreflect.FullName("temporal.api.history.v1.History")
@@ -230,7 +230,10 @@ func buildInto(m protoreflect.Message, path Path, o BuildOpts) {
 // fn returns true if it changed the container.
 func Visit(m protoreflect.Message, throughBlobs bool, fn func(container protoreflect.Message, fd protoreflect.FieldDescriptor) bool) (changed bool, err error) {
 	var fields []protoreflect.FieldDescriptor
-	m.Range(func(fd protoreflect.FieldDescriptor, _ protoreflect.Value) bool { fields = append(fields, fd); return true })
+	m.Range(func(fd protoreflect.FieldDescriptor, _ protoreflect.Value) bool {
+		fields = append(fields, fd)
+		return true
+	})
 	sort.Slice(fields, func(i, j int) bool { return fields[i].Number() < fields[j].Number() })
 	for _, fd := range fields {
 		if fn(m, fd) {
